@@ -378,7 +378,22 @@ func getHandler(env *lisp.LEnv, in *lisp.LVal, name string, constraints []*lisp.
 					"Bad input type: an ordinary function is not usable as a constraint (%v). Constraints must be built by the s package (s:int, s:has-key, s:gt, ...) or by libschema.NewValidator.",
 					in)
 			}
-			return in
+			if len(constraints) == 0 {
+				return in
+			}
+			// The base type is a validator built earlier and further
+			// constraints are declared on top of it, as in
+			// (s:deftype "adult" age (s:gte 18)).  Returning the base
+			// validator as it is dropped those constraints without a word,
+			// and (s:validate adult 5) passed.  The value must satisfy the
+			// base validator and then every constraint.
+			base, rest := in, builtinCheckAny(env, constraints)
+			return newValidator(lisp.Formals("input"), func(env *lisp.LEnv, input *lisp.LVal) *lisp.LVal {
+				if v := applyConstraint(env, base, input); v.Type == lisp.LError {
+					return v
+				}
+				return applyConstraint(env, rest, input)
+			})
 		}
 		res = lisp.ErrorConditionf(BadArgs, "Bad input type: %s is not usable as a constraint (%v)", in.Type.String(), in)
 	}
